@@ -646,6 +646,29 @@ def shrink(ctx, model, case, rl=None):
     return cur
 
 
+def syntactic_ties(ctx):
+    """two facts read off the source text (fail-closed): the exact time test and the read size"""
+    import ast
+    import inspect
+    import in_toto.runlib as rl
+    try:
+        tree = ast.parse(inspect.getsource(rl._subprocess_run_duplicate_streams))
+    except (OSError, SyntaxError, TypeError) as e:
+        ctx.oblige("tie:source-of-_subprocess_run_duplicate_streams", False, repr(e))
+        return
+    gt, reads = [], []
+    for node in ast.walk(tree):
+        if isinstance(node, ast.Compare) and len(node.ops) == 1:
+            txt = ast.unparse(node)
+            if "time.time()" in txt:
+                gt.append((type(node.ops[0]).__name__, txt))
+        if isinstance(node, ast.Call) and isinstance(node.func, ast.Attribute) and node.func.attr == "read":
+            reads.append(ast.unparse(node))
+    ctx.oblige("tie:time-test-is  time.time() > proc_start_time + timeout", gt == [("Gt", "time.time() > proc_start_time + timeout")], repr(gt))
+    ctx.oblige("tie:both-reads-are  reader.read(io.DEFAULT_BUFFER_SIZE)",
+               sorted(reads) == ["stderr_reader.read(io.DEFAULT_BUFFER_SIZE)", "stdout_reader.read(io.DEFAULT_BUFFER_SIZE)"], repr(reads))
+
+
 def run(ctx):
     t_start = _time.time()
     soft, hard = resource.getrlimit(resource.RLIMIT_STACK)
@@ -659,13 +682,14 @@ def run(ctx):
     enc = locale.getpreferredencoding(False)
     chunk = io.DEFAULT_BUFFER_SIZE
     core.check_props(ctx, ["Props/C13.v"])
+    syntactic_ties(ctx)
     ctx.oblige("locale-encoding-is-utf-8", codecs.lookup(enc).name == "utf-8", "locale.getpreferredencoding(False) = %r" % enc)
     import in_toto.runlib as rl
     model = core.Model()
     thorough = ctx.thorough()
 
     # -- 1. scripted schedules -------------------------------------------------------------
-    n = 6000 if thorough else 700
+    n = 20000 if thorough else 700
     cases = [c for _, c in pinned(chunk)]
     n_pinned = len(cases)
     cases += [{"kind": "sched", "fn": "dup", "chunk": chunk, "timeout": t, "t0": 0, "tkind": "noout",
@@ -714,7 +738,7 @@ def run(ctx):
             legacy_stats[blob] = "unavailable"
             continue
         lc = [c for c in cases if c.get("fn") == "dup" and all(c.get(k, True) for k in ("mk1_ok", "mk2_ok", "rm_out_ok", "rm_err_ok"))
-              and sum(sched_stats(c)["total"]) < 3 * chunk][:250]
+              and sum(sched_stats(c)["total"]) < 3 * chunk][:(1500 if thorough else 250)]
         li = [run_impl(ctx, c, m) for c in lc]
         la = [model_view(a) for a in model.batch([model_req(c, legacy=lg) for c in lc])]
         dis = [k for k in range(len(lc)) if property_view(li[k]) != property_view(la[k])]
@@ -725,7 +749,7 @@ def run(ctx):
         ctx.oblige("legacy-model-matches-git-blob-%s" % blob, not dis, json.dumps(legacy_stats[blob])[:600])
 
     # -- 3. decoder chain and reference ----------------------------------------------------
-    dcs = decode_cases(ctx.rng, 12000 if thorough else 1500)
+    dcs = decode_cases(ctx.rng, 40000 if thorough else 1500)
     dimpl = [impl_decode(ch, f) for ch, f in dcs]
     dans = model.batch([("streams_decode", {"chunks": [lat(c) for c in ch], "final": f}) for ch, f in dcs])
     dbad = [i for i in range(len(dcs)) if dans[i] != {"ok": dimpl[i]}]
